@@ -283,6 +283,30 @@ fn apply(kind: &str, k: &Layout, i: usize) -> Option<Layout> {
             last.dk.clear();
             Some(o)
         }
+        "split_chain_keep_name" => {
+            if k.rights[i].chain.len() < 2 || k.rights[i].name.is_empty() {
+                return None;
+            }
+            let rest = o.rights[i].chain.split_off(1);
+            o.rights.insert(i + 1, Right { name: k.rights[i].name.clone(), chain: rest });
+            Some(o)
+        }
+        "swap_secrets_in_chain" => {
+            if k.rights[i].chain.len() < 2 || k.rights[i].chain[0] == k.rights[i].chain[1] {
+                return None;
+            }
+            o.rights[i].chain.swap(0, 1);
+            Some(o)
+        }
+        "swap_heads_across" => {
+            if i + 1 >= n || k.rights[i].chain[0] == k.rights[i + 1].chain[0] || k.rights[i].chain[0].hyb != k.rights[i + 1].chain[0].hyb {
+                return None;
+            }
+            let a = k.rights[i].chain[0].clone();
+            o.rights[i].chain[0] = k.rights[i + 1].chain[0].clone();
+            o.rights[i + 1].chain[0] = a;
+            Some(o)
+        }
         "add_right" => {
             if i != 0 {
                 return None;
